@@ -37,6 +37,9 @@ type Solver struct {
 	Errors    []string
 	log       io.Writer
 	restarts  int
+	// Tactic, when set, is tried first (check-sat-using); any error/unknown falls back to plain check-sat.
+	Tactic          string
+	TacticFallbacks int
 }
 
 func NewSolver(kind string, timeoutMs int) *Solver {
@@ -199,22 +202,34 @@ func (s *Solver) Check(tb *TB, lits []*Term, wantVars []*Term) (Result, Model) {
 	for _, sd := range sides {
 		fmt.Fprintf(&sb, "(assert %s)\n", sd.ref())
 	}
-	sb.WriteString("(check-sat)\n")
-	lines, ok := s.roundtrip(sb.String())
 	res := Unknown
-	for _, l := range lines {
-		if strings.Contains(l, "(error") {
-			s.Errors = append(s.Errors, l)
-			ok = false
+	attempt := func(cmd string, final bool) bool {
+		lines, ok := s.roundtrip(sb.String() + cmd)
+		for _, l := range lines {
+			if strings.Contains(l, "(error") {
+				if final {
+					s.Errors = append(s.Errors, l)
+				}
+				ok = false
+			}
 		}
+		if ok && len(lines) > 0 {
+			switch strings.TrimSpace(lines[len(lines)-1]) {
+			case "sat":
+				res = Sat
+				return true
+			case "unsat":
+				res = Unsat
+				return true
+			}
+		}
+		return false
 	}
-	if ok && len(lines) > 0 {
-		switch strings.TrimSpace(lines[len(lines)-1]) {
-		case "sat":
-			res = Sat
-		case "unsat":
-			res = Unsat
+	if s.Tactic == "" || s.kind == "cvc5" || !attempt("(check-sat-using "+s.Tactic+")\n", false) {
+		if s.Tactic != "" {
+			s.TacticFallbacks++
 		}
+		attempt("(check-sat)\n", true)
 	}
 	var model Model
 	if res == Sat && len(wantVars) > 0 {
